@@ -85,6 +85,13 @@ class PanelCtx:
         self.used_values[name] = v
         return Sym(v)
 
+    def rule(self, n):
+        """the symbolic n-point rule (created on demand: an oracle may need a rule the code under test never asked for)"""
+        n = int(n)
+        if n not in self.gauss:
+            self.gauss[n] = [(self.V('gp%d_%d' % (n, k)), self.V('gw%d_%d' % (n, k))) for k in range(n)]
+        return self.gauss[n]
+
     def _leggauss(self, n, pts, wts):
         """stub for leggauss_quad: symbolic points and weights (integrand-level identities hold for every rule)"""
         n = int(n)
